@@ -22,7 +22,7 @@ func init() {
 		Run: ruleNoUseAfterRelease,
 	})
 	register(&Rule{
-		Name: "reset-completeness", Props: []string{"C19"}, Engine: "POOL", Floor: 60,
+		Name: "reset-completeness", Props: []string{"C19", "C05", "C16"}, Engine: "POOL", Floor: 60,
 		Doc: "for every pooled type, each field is (re)initialised on the acquire/reset path or listed with a reason: a field that survives recycling leaks one connection's state into another",
 		Run: ruleResetCompleteness,
 	})
